@@ -1,10 +1,15 @@
 #!/usr/bin/env python3
 """detection matrix: every seeded change (and hand-made mutant) against the quick tier of the checks its
-meta.json names; writes seeded/matrix.json.   usage: python3 tools_matrix.py [ids...]"""
+meta.json names; writes seeded/matrix.json.   usage: python3 tools_matrix.py [--out file] [ids...]"""
 import json, os, subprocess, sys, time
 here = os.path.dirname(os.path.abspath(__file__))
+out_override = None
+if '--out' in sys.argv:
+    k = sys.argv.index('--out')
+    out_override = sys.argv[k + 1]
+    del sys.argv[k:k + 2]
 ids = sys.argv[1:] or sorted(d for d in os.listdir(os.path.join(here, 'seeded')) if os.path.isdir(os.path.join(here, 'seeded', d)))
-out_path = os.path.join(here, 'seeded', 'matrix.json')
+out_path = out_override or os.path.join(here, 'seeded', 'matrix.json')
 res = json.load(open(out_path)) if os.path.exists(out_path) else {}
 for i in ids:
     meta = json.load(open(os.path.join(here, 'seeded', i, 'meta.json')))
